@@ -263,6 +263,26 @@ def c11(kind, case, r):
             want = [i for i in subs if i in order]
             if order != want:
                 return "single worker executed %r, submission order is %r" % (order, want)
+        if n == 1 and case["mode"] == "dep-block" and not any(o[0] == "cancel" or (o[0] == "shutdown" and o[2]) for o in case["ops"]) \
+                and not has_fail(case):
+            # with the resolver in front: a call whose inputs had all finished when it was submitted is forwarded at once,
+            # so it is executed before every call submitted after it
+            sub_at, done_at, body_at = {}, {}, {}
+            for k, (en, pick, lab) in enumerate(r["trace"]):
+                if lab[0] == "put" and pick == "M" and str(lab[2]).startswith("T"):
+                    sub_at.setdefault(int(str(lab[2])[1:]), k)
+                elif lab[0] in ("setres", "setexc"):
+                    done_at.setdefault(lab[1], k)
+                elif lab[0] == "body":
+                    body_at.setdefault(lab[1], k)
+            for a in sorted(sub_at, key=sub_at.get):
+                deps = case["calls"][a - 1].get("deps", [])
+                if a not in body_at or any(d not in done_at or done_at[d] > sub_at[a] for d in deps):
+                    continue
+                for b in sub_at:
+                    if sub_at[b] > sub_at[a] and b in body_at and body_at[b] < body_at[a]:
+                        return ("single worker behind the resolver: call %d (all inputs finished when it was submitted) was "
+                                "submitted before call %d but executed after it" % (a, b))
     return None
 
 
